@@ -304,6 +304,29 @@ theorem cotangent_branches_agree (vs : List V3) (faces : List Face) (angles : At
   intro c hc
   exact cotangent_from_angles vs faces angles c (List.mem_range.mp hc)
 
+/-! ## cotan_weights: whole body -/
+
+/-- `cotan_weights` as read from the source: edge `e = (A,B)` starts from the attribute default `0`, then adds `cot[c]/2` for the corner `c`
+opposite to the edge in the face of `direct_face(A,B)` and in the face of `direct_face(B,A)` (each skipped when `None`), with
+`c = face_to_first_corner(T) + 3 - iA - iB`: on a triangle mesh exactly the model's `cotanWeightCorners` (the list of halved corners, in order) -/
+theorem cotan_weights_bridge (faces : List Face) (edges : List (Nat × Nat)) (htri : ∀ f ∈ faces, f.length = 3) (e : Nat) (he : e < edges.length) :
+    C07Src.cotan_weights faces edges e = cotanWeightCorners faces edges[e] := by
+  unfold C07Src.cotan_weights cotanWeightCorners
+  simp only []
+  rw [forEnum_local_get _ (by intro a i x; funext k; beta_reduce; by_cases hk : k = i <;> (split_ifs <;> simp [upd, hk])) _ _ e he]
+  rcases h1 : directFace faces edges[e].1 edges[e].2 with _ | ⟨t1, i1, j1⟩ <;>
+    rcases h2 : directFace faces edges[e].2 edges[e].1 with _ | ⟨t2, i2, j2⟩ <;>
+    simp [upd, oppCorner]
+  · rw [firstCorner_tri faces htri t2 (Nat.le_of_lt (directFace_lt faces _ _ _ h2))]; try omega
+  · rw [firstCorner_tri faces htri t1 (Nat.le_of_lt (directFace_lt faces _ _ _ h1))]; try omega
+  · rw [firstCorner_tri faces htri t1 (Nat.le_of_lt (directFace_lt faces _ _ _ h1)),
+      firstCorner_tri faces htri t2 (Nat.le_of_lt (directFace_lt faces _ _ _ h2))]
+    first | omega | (constructor <;> omega)
+
+theorem cotan_weights_header : ("cotan_weights", "edges", "float", "1", 0) ∈ C07Src.headers := by decide
+
+example : C07Src.cotan_weights [[0, 1, 2], [1, 0, 3]] [(0, 1), (1, 2)] 0 = [2, 5] := by decide
+
 /-! ## angle_defects: whole body (default `2*pi`, border loop, skip guard, corner loop) -/
 
 /-- `angle_defects` as read from the source: vertex `v` starts at `2*pi` (the attribute default of all three constructions), a border vertex
